@@ -6,7 +6,8 @@ from . import sessgen, c01
 PROP = "C20"
 MODULE = "GmqttVerif.Properties.C20"
 THEOREMS = ["GmqttVerif.Stats." + t for t in
-            ["global_is_sum", "client_exact", "global_exact", "per_qos_exact", "gauges_exact", "conn_gauges_exact", "no_underflow",
+            ["global_is_sum", "global_exact", "client_exact", "clientTotal_eq_sum", "per_qos_exact", "gauges_exact",
+             "client_gauges_exact", "conn_gauges_exact", "no_underflow",
              "asis_qos_miscounted", "asis_inflight_wraps", "asis_gauges_leak", "asis_auth_invisible"]]
 COMPS = ["stats"]
 
@@ -37,7 +38,8 @@ def gen_deliver(rng):
 def gen_drops(rng):
     """queues that overflow, messages larger than the receiver's maximum packet size, sessions that end with messages queued"""
     maxq = rng.choice([2, 3, 4])
-    ops = [f"new mode=onlyonce q0={rng.choice([0, 1])} maxq={maxq} mi={rng.choice([1, 2, maxq])} se=7200"]
+    timed = rng.random() < 0.06        # real time: message expiry / in-flight expiry of 1 s and a sleep
+    ops = [f"new mode=onlyonce q0={rng.choice([0, 1])} maxq={maxq} mi={rng.choice([1, 2, maxq])} se=7200" + (" me=1 ie=1" if timed else "")]
     ops.append("conn p cp v=5 cs=1")
     v = rng.choice([4, 5])
     mp = rng.choice([None, None, 40]) if v == 5 else None
@@ -71,6 +73,13 @@ def gen_drops(rng):
         elif r < 0.92:
             ops.append(f"api backdate cs {rng.choice([100, 400, 8000])}")
             ops.append("api expire")
+        elif r < 0.95 and timed:
+            ops.append("sleep 1100")
+            timed = False
+        elif r < 0.97:
+            z = f"z{len(ops)}"
+            ops.append(f"dial {z} v=4")
+            ops.append(f"raw {z} c000")          # PINGREQ before CONNECT: refused with a CONNACK, booked under client id ""
         else:
             ops.append("ping p")
     if cur:
@@ -120,6 +129,8 @@ class Snap:
             if ent:
                 head, tx, rx, mtx, mrx = ent.split("|")
                 conn, cid = head.split("=", 1)
+                if cid.startswith("?"):
+                    cid = "~"       # never sent a CONNECT that registered: the broker books its packets under client id ""
                 self.t[conn] = dict(cid=cid, tx=parse_pairs(tx[3:]), rx=parse_pairs(rx[3:]), mtx=parse_kv(mtx[4:]), mrx=parse_kv(mrx[4:]))
         for ent in mr.group(2).split(";"):
             if ent:
@@ -174,6 +185,9 @@ def derive_events(truth, prev, snap):
     for conn, t in snap.t.items():
         if conn not in truth.conn_epoch:
             cid = t["cid"]
+            if cid == "~":
+                truth.live["~"] = True
+                truth.epoch.setdefault("~", 0)
             base = truth.epoch.get(cid, 0)
             k = truth.conn_op.get(conn, 10 ** 9)
             truth.conn_epoch[conn] = (cid, base + sum(1 for o in created_at.get(cid, []) if o <= k))
